@@ -23,7 +23,7 @@ import (
 )
 
 var st = stat.New("C12",
-	"Case = 1..3 scenarios run concurrently, scenario = {worker pool 0 or 1..4, queue capacity 1..64 or large, 1..4 raw client connections, per connection 0..10 pipelined requests whose handlers sleep 0..400 ms, Shutdown(ctx) called 0..250 ms after the requests were written, ctx timeout 4..8 s}. The obligated set is measured, not assumed: per connection the first (replies already received + the server's read-but-unanswered counter, read just before Shutdown through an overlay accessor) requests in FIFO order. Oracle: every obligated request is answered (matching id) before the connection is closed; every connection receives the reconnect notification (id 0, _reconnect_) and is then closed by the server; Shutdown returns within ctx timeout + 1 s, and - since all handlers finish long before - within last handler end + 2 s idle rule + 1.5 s. Non-trivial = pool > 0 with more accepted requests than workers at shutdown, or >= 2 handlers mid-flight at shutdown. Distinct = distinct case JSON.",
+	"Case = 1..3 scenarios run concurrently, scenario = {worker pool 0 or 1..4, queue capacity 1..64 or large, 1..4 raw client connections, per connection 0..10 pipelined requests whose handlers sleep 0..3000 ms, Shutdown(ctx) called 0..250 ms after the requests were written, ctx timeout 4..8 s}. The obligated set is measured, not assumed: per connection the first (replies already received + the server's read-but-unanswered counter, read just before Shutdown through an overlay accessor) requests in FIFO order. Oracle: every obligated request is answered (matching id) before the connection is closed; every connection receives the reconnect notification (id 0, _reconnect_) and is then closed by the server; Shutdown returns within ctx timeout + 1 s; when it returned before its context expired every obligated request must have been answered and every connection notified and closed, and it must not have waited longer than last handler end + 2 s idle rule + 1.5 s (when it ran into its context, unanswered requests are legitimate). Non-trivial = pool > 0 with more accepted requests than workers at shutdown, or >= 2 handlers mid-flight at shutdown. Distinct = distinct case JSON.",
 	"requests still in the socket buffer because the accept/queue path was blocked are not obligated (the property speaks of requests already read)",
 	"interleavings of accept loop, receive loops, handlers and the shutdown poller are sampled through generated handler durations and shutdown moments")
 
@@ -63,7 +63,7 @@ func draw(rt *rapid.T) Case {
 			cn := Conn{BigReply: -1}
 			nr := rapid.IntRange(0, 10).Draw(rt, "nreqs")
 			for k := 0; k < nr; k++ {
-				cn.SleepMs = append(cn.SleepMs, rapid.SampledFrom([]int{0, 0, 10, 50, 150, 400}).Draw(rt, "sleep"))
+				cn.SleepMs = append(cn.SleepMs, rapid.SampledFrom([]int{0, 0, 10, 50, 150, 400, 400, 1500, 3000}).Draw(rt, "sleep"))
 			}
 			if nr > 0 && rapid.IntRange(0, 3).Draw(rt, "slowReader") == 0 {
 				cn.BigReply = rapid.IntRange(0, nr-1).Draw(rt, "bigAt")
@@ -206,6 +206,9 @@ func runScenario(si int, s Scenario) scenResult {
 		return res
 	}
 	took := time.Since(t0)
+	// "... or when its context expires, whichever is first": when Shutdown ran into its
+	// context, unanswered requests and open connections are legitimate
+	expired := took >= time.Duration(s.CtxTimeoutS)*time.Second-300*time.Millisecond
 	// give the connections a moment to deliver what was written before the close
 	time.Sleep(150 * time.Millisecond)
 	d.mu.Lock()
@@ -233,7 +236,7 @@ func runScenario(si int, s Scenario) scenResult {
 			}
 			answered[r.ReqID]++
 		}
-		for k := 0; k < obligated[i]; k++ {
+		for k := 0; k < obligated[i] && !expired; k++ {
 			id := int32(1000*(i+1) + k)
 			if answered[id] != 1 {
 				res.f = stat.Failf("request-not-answered", "scenario %d (pool %d, queue cap %d, shutdown after %d ms) conn %d: request #%d (handler %d ms) had been read by the server before Shutdown but received %d replies; %d of %d requests were obligated, %d replies arrived, connection closed by server: %v, Shutdown took %v", si, s.MaxInvoke, s.QueueCap, s.ShutdownMs, i, k, s.Conns[i].SleepMs[k], answered[id], obligated[i], len(s.Conns[i].SleepMs), len(answered), closed, took.Round(10*time.Millisecond))
@@ -245,6 +248,9 @@ func runScenario(si int, s Scenario) scenResult {
 				res.f = stat.Failf("duplicate-reply", "scenario %d conn %d: request id %d answered %d times", si, i, id, n)
 				return res
 			}
+		}
+		if expired {
+			continue
 		}
 		if push < 1 {
 			res.f = stat.Failf("no-reconnect-notification", "scenario %d conn %d: the client never received the reconnect notification (id 0, _reconnect_)", si, i)
@@ -262,7 +268,7 @@ func runScenario(si int, s Scenario) scenResult {
 	}
 	// all handlers finish within ~0.4 s * queue; the drain rule: idle 2 s + polling
 	if !lastHandler.IsZero() {
-		if late := time.Since(t0) - (lastHandler.Sub(t0) + 2*time.Second + 1500*time.Millisecond + 150*time.Millisecond); late > 0 && lastHandler.After(t0) {
+		if late := took - (lastHandler.Sub(t0) + 2*time.Second + 1500*time.Millisecond); late > 0 && lastHandler.After(t0) && !expired {
 			res.f = stat.Failf("shutdown-waits-for-context", "scenario %d: all handlers had finished %v after Shutdown was called, yet Shutdown returned only after %v (context %d s; read-but-unanswered counters afterwards: %v)", si, lastHandler.Sub(t0).Round(10*time.Millisecond), took.Round(10*time.Millisecond), s.CtxTimeoutS, srv.VerifConnInvokes())
 			return res
 		}
@@ -299,7 +305,7 @@ func run(c Case) (*stat.Failure, bool) {
 
 func TestC12(t *testing.T) {
 	defer st.Emit()
-	stat.Check(t, st, "shutdown", stat.N(18, 400), draw, func(c Case) *stat.Failure {
+	stat.Check(t, st, "shutdown", stat.N(14, 400), draw, func(c Case) *stat.Failure {
 		f, nt := run(c)
 		var cls []string
 		for _, s := range c.Scenarios {
